@@ -360,14 +360,19 @@ def run_model(cases, tag, per_case_timeout=20, dbg=True, shards=NCPU, extra_head
         files.append(path)
     procs = []
     for path in files:
-        fin = open(path)
+        # output goes to files, not pipes: a shard whose answers exceed the pipe buffer would otherwise stall until it is read
+        fin = open(path); fout = open(path + ".out", "w"); ferr = open(path + ".err", "w")
         procs.append((subprocess.Popen(["coqtop", "-quiet", "-Q", os.path.join(COQDIR, "Model"), "RTA.Model"],
-                                       stdin=fin, stdout=subprocess.PIPE, stderr=subprocess.PIPE, text=True), fin))
+                                       stdin=fin, stdout=fout, stderr=ferr), fin, fout, ferr, path))
     res = {}
     errs = []
-    for p, fin in procs:
-        out, err = p.communicate()
-        fin.close()
+    for p, fin, fout, ferr, path in procs:
+        p.wait()
+        fin.close(); fout.close(); ferr.close()
+        out = open(path + ".out", errors="replace").read(); err = open(path + ".err", errors="replace").read()
+        for x in (path + ".out", path + ".err"):
+            try: os.remove(x)
+            except OSError: pass
         # answers: "     = (ID, TERM)\n     : N * out"
         for m in re.finditer(r"=\s*\((\d+),\s*(.*?)\)\s*:\s*N \* out", out, re.S):
             res[int(m.group(1))] = canon_coq(" ".join(m.group(2).split()))
